@@ -53,7 +53,7 @@ def _finish(m, sig, designer_terms, private_terms):
     return True
 
 
-OWN = ("i", "j", "u", "b", "r", "q", "s", "d", "dd")  # names the designer (this harness) gives to other objects of the same module
+OWN = ("i", "j", "k", "u", "b", "r", "q", "s", "d", "dd")  # names the designer (this harness) gives to other objects of the same module
 
 
 def _site(site, nm, nm2, late):
@@ -62,12 +62,14 @@ def _site(site, nm, nm2, late):
     env.reset_all()
     m = h.Module(name="Top")
     C = _cell()
-    sig = h.Port(name=nm) if site in (9, 10) else h.Signal(name=nm)  # 9 / 10: the designer's object is a PORT
+    sig = h.Port(name=nm) if site in (9, 10, 12) else h.Signal(name=nm)  # 9 / 10 / 12: the designer's object is a PORT
     extra = h.Signal(name=nm2) if site == 7 else None
     if site == 9:
         site_eff = 2
     elif site == 10:
         site_eff = 1
+    elif site == 12:
+        site_eff = 0
     else:
         site_eff = site
     site, site_orig = site_eff, site
@@ -154,6 +156,7 @@ def _inst_site(site, nm, late):
     elif site == 11:
         m.i = C({})(b=h.NoConn())
         m.j = C({})(a=m.i.a, b=s)
+        m.k = C({})(a=s, b=h.NoConn(name="xy"))
     else:
         P = h.Module(name="PCell")
         P.q, P.g = h.Port(), h.Port()
@@ -174,7 +177,7 @@ def _inst_site(site, nm, late):
         return False
     if mine.conns["a"] is not s or mine.conns["b"] is not s:
         return False
-    n_expected = 3  # designer's instance + two invented (or, site 11, two further designer) ones
+    n_expected = 4 if site == 11 else 3  # designer's instance + two invented (or, site 11, three further designer) ones
     if len(m.instances) != n_expected:
         return False
     if site == 11 and (m.instances["i"].conns["a"] is not m.instances["j"].conns["a"] or m.instances["i"].conns["b"] is m.instances["i"].conns["a"]):
@@ -189,11 +192,12 @@ def _inst_site(site, nm, late):
         return not check_package(pkg)
 
 
-_T = lambda n: {"quick": {"timeout": 150, "pre": [f"len(nm) <= {n}"]}, "thorough": {"timeout": 1200, "pre": [f"len(nm) <= {n + 2}"]}}
+_T = lambda n: {"quick": {"timeout": 150, "pre": [f"len(nm) <= {n}"]}, "thorough": {"timeout": 600, "pre": [f"len(nm) <= {n + 5}"]}}
 _SITES = {0: "named no-connect 'xy'", 1: "unnamed no-connect (implicit i_b)", 2: "implicit signal behind a port reference (i_a)",
           3: "flattened bundle member (b_x)", 4: "one named no-connect shared by two ports",
           8: "four members of one bundle with mutually colliding flattened names (b_x, b_x_, b_y_z from a scalar and from a nested member)",
-          9: "implicit signal behind a port reference (i_a) against a designer PORT", 10: "unnamed no-connect (i_b) against a designer PORT"}
+          9: "implicit signal behind a port reference (i_a) against a designer PORT", 10: "unnamed no-connect (i_b) against a designer PORT",
+          12: "named no-connect 'xy' against a designer PORT"}
 for _k, _txt in _SITES.items():
     def _mk(k):
         def f(nm, late):
@@ -202,16 +206,16 @@ for _k, _txt in _SITES.items():
         return f
     _f = _mk(_k)
     globals()[_f.__name__] = harness(
-        "C05", args="nm: str, late: bool", pre=[], tiers=_T(3), sample=("xy" if _k in (0, 4) else ("b_x" if _k == 8 else "i_b"), False),
-        bounds=f"naming site: {_txt}; designer signal name = any string of length <= 3 (quick) / <= 5 (thorough); declared before or after the instances",
+        "C05", args="nm: str, late: bool", pre=[], tiers=_T(3), sample=("xy" if _k in (0, 4, 12) else ("b_x" if _k == 8 else "i_b"), False),
+        bounds=f"naming site: {_txt}; designer signal name = any string of length <= 3 (quick) / <= 8 (thorough); declared before or after the instances",
         generalises="the designer's name as a symbolic string; declaration order", outside="longer names")(_f)
 
 
 @harness("C05", args="nm: str, nm2: str, late: bool", pre=[],
          tiers={"quick": {"timeout": 170, "pre": ["len(nm) <= 3", "len(nm2) <= 4", "len(nm2) >= 4"]},
-                "thorough": {"timeout": 1200, "pre": ["len(nm) <= 4", "len(nm2) <= 5"]}},
+                "thorough": {"timeout": 600, "pre": ["len(nm) <= 6", "len(nm2) <= 7"]}},
          sample=("i_a", "i_a_", True),
-         bounds="underscore retry: two designer signals with symbolic names (<=3 and exactly 4 chars quick; <=4, <=5 thorough) next to the implicit port-reference signal",
+         bounds="underscore retry: two designer signals with symbolic names (<=3 and exactly 4 chars quick; <=6, <=7 thorough) next to the implicit port-reference signal",
          generalises="two designer names as symbolic strings", outside="longer names")
 def site7_retry(nm, nm2, late):
     if nm == nm2:
@@ -219,7 +223,7 @@ def site7_retry(nm, nm2, late):
     return _site(7, nm, nm2, late)
 
 
-for _k, _txt in {5: "array element (r_0, r_1)", 6: "pair member (q_p, q_n)", 11: "implicit port-reference signal (i_a) and unnamed no-connect (i_b) against a designer INSTANCE"}.items():
+for _k, _txt in {5: "array element (r_0, r_1)", 6: "pair member (q_p, q_n)", 11: "implicit port-reference signal (i_a), unnamed no-connect (i_b) and named no-connect (xy) against a designer INSTANCE"}.items():
     def _mk2(k):
         def f(nm, late):
             return _inst_site(k, nm, late)
@@ -228,5 +232,5 @@ for _k, _txt in {5: "array element (r_0, r_1)", 6: "pair member (q_p, q_n)", 11:
     _f = _mk2(_k)
     globals()[_f.__name__] = harness(
         "C05", args="nm: str, late: bool", pre=["len(nm) >= 1"], tiers=_T(3), sample=("r_0" if _k == 5 else ("i_a" if _k == 11 else "q_p"), True),
-        bounds=f"naming site: {_txt}; designer instance name = any non-empty string of length <= 3 (quick) / <= 5 (thorough); declared before or after",
+        bounds=f"naming site: {_txt}; designer instance name = any non-empty string of length <= 3 (quick) / <= 8 (thorough); declared before or after",
         generalises="the designer's instance name as a symbolic string; declaration order", outside="longer names")(_f)
